@@ -39,10 +39,14 @@ def _plotminmax(case, V, st):
     MPI = sim.setup()
     from pygyro.initialisation.setups import setupCylindricalGrid
     size, draw = case['size'], case['draw']
-    mm_cases = [(None, None), (0, 2), (3, 1), (2, 6), ([0, 3], [2, 1]), ([1, 2], [7, 0]), (1, 0)]
+    mm_cases = [(None, None), (0, 2), (3, 1), (2, 6), ([0, 3], [2, 1]), ([1, 2], [7, 0]), (1, 0), (0, 0), ([0], [0]), (np.int64(0), np.int64(0)), ([0, 1], [0, 0])]      # incl. falsy axis / index
     I = np.indices(NPTS)
     # all values positive in one field and all negative in the other: a neutral element of the wrong sign would win
     FS = [('positive', 2.0 + np.sin(1 + I[0] * 1.3 + I[1] * 0.7 + I[2] * 2.1 + I[3] * 0.9)), ('negative', -3.0 + np.cos(2 + I[0] * 0.3 + I[1] * 1.7 + I[2] * 1.1 + I[3] * 0.4))]
+
+    for _n, _F in FS:
+        _F[tuple(n // 2 for n in NPTS)] -= 0.9          # global extremes at interior indices (no slice result coincides with the global one)
+        _F[tuple((n // 2 + 1) % n for n in NPTS)] += 0.9
 
     def fn(r):
         comm = MPI.COMM_WORLD
@@ -99,6 +103,10 @@ def _fields(npts, cplx=False):
     I = np.indices(npts)
     F = [('one', np.ones(npts))]
     dense = np.sin(1 + sum(I[k] * a for k, a in enumerate((1.3, 0.7, 2.1, 0.9)[:len(npts)])))
+    # global extremes at interior indices: no fixed-index slice of the min/max cases contains them, so a slice result can never
+    # coincide with the whole-grid result
+    dense[tuple(n // 2 for n in npts)] = -3.0
+    dense[tuple((n // 2 + 1) % n for n in npts)] = 3.0
     F.append(('dense', dense))
     corners = list(itertools.product(*[(0, n - 1) for n in npts]))[::3] + [tuple(n // 2 for n in npts), tuple((n // 2 + 1) % n for n in npts)]
     for gi in corners:
@@ -124,7 +132,7 @@ def _norms(case, V, st):
     fields = _fields(NPTS, cplx=cplx)
     if cplx:
         fields = [(n, F * (1 - 0.75j) if n != 'complex' else F) for n, F in fields]         # every field gets an imaginary part
-    mm_cases = [(None, None), (0, 2), (3, 1), (2, 6), ([0, 3], [2, 1]), ([1, 2], [7, 0]), (1, 0)]
+    mm_cases = [(None, None), (0, 2), (3, 1), (2, 6), ([0, 3], [2, 1]), ([1, 2], [7, 0]), (1, 0), (0, 0), ([0], [0]), (np.int64(0), np.int64(0)), ([0, 1], [0, 0])]      # incl. falsy axis / index
 
     def fn(r):
         g, c, t = setupCylindricalGrid(layout=lay, npts=list(NPTS), comm=MPI.COMM_WORLD, zMin=7.0, vMin=-6.1, rMin=0.3, dtype=(np.complex128 if cplx else float))
